@@ -817,7 +817,7 @@ pub fn check_main(args: &[String]) -> i32 {
 
     // seam fidelity: the first cases of this check once more, against the real binary (guard off)
     let scratch_dir = format!("{}/sim/target/fidelity-{}", verif_home(), prop);
-    let fid = if crate::fidelity::real_bin().is_some() {
+    let mut fid = if crate::fidelity::real_bin().is_some() {
         let n = if tier == "thorough" { 1500 } else { 160 };
         // spread over the whole range of this check's cases
         let n = n.min(total);
@@ -830,6 +830,21 @@ pub fn check_main(args: &[String]) -> i32 {
                 println!("note: simulated console and real binary disagree ({}): explained by the environment dependence reported below", m);
             } else {
                 harness_errors.push(format!("simulated console and real binary disagree: {}", m));
+            }
+        }
+        for (run, what) in sw.real_aborts.iter().take(3) {
+            // C15, C18 and C20 each say "never aborts" of what their cases exercise; for the others a
+            // difference between simulation and real binary stays a harness matter
+            if prop == "C15" || prop == "C18" || prop == "C20" {
+                let mut scratch = Stats::default();
+                if let Some(mut c) = crate::dispatch::make_case(&prop, seed, *run, &mut scratch) {
+                    let class = format!("{}:real_binary_aborts", prop);
+                    c.expect = Some(Expect { class: class.clone(), message: what.clone(), ..Default::default() });
+                    Stats::bump(&mut stats.violations, &class, 1);
+                    viols.push(VMsg { run: *run, class, message: what.clone(), minimised: false, case: c });
+                }
+            } else {
+                harness_errors.push(format!("run {}: {}", run, what));
             }
         }
         for (run, what) in sw.not_reproducible.iter().take(3) {
@@ -849,6 +864,46 @@ pub fn check_main(args: &[String]) -> i32 {
     } else {
         None
     };
+
+    // C15: process-level cases for the real binary (bin.rs - arguments, reading the file, the stack
+    // of the thread that runs the driver - is a stub inside the simulation and only real here)
+    let mut proc_cases_run = 0u64;
+    if prop == "C15" {
+        if let Some(bin) = crate::fidelity::real_bin() {
+            let cases = crate::fidelity::proc_cases();
+            proc_cases_run = cases.len() as u64;
+            let dir = format!("{}/proc", scratch_dir);
+            let found: Vec<(String, Vec<u8>, bool, String)> = std::thread::scope(|sc| {
+                let hs: Vec<_> = cases
+                    .iter()
+                    .enumerate()
+                    .map(|(k, c)| {
+                        let bin = bin.clone();
+                        let dir = format!("{}/{}", dir, k);
+                        sc.spawn(move || {
+                            let r = crate::fidelity::judge_proc_case(c, &bin, &dir, "p");
+                            let _ = std::fs::remove_dir_all(&dir);
+                            r.map(|what| (c.name.clone(), c.file.clone().unwrap_or_default(), c.flags.contains(&"-i"), what))
+                        })
+                    })
+                    .collect();
+                hs.into_iter().filter_map(|h| h.join().ok().flatten()).collect()
+            });
+            for (name, file, interp, what) in found {
+                let class = format!("C15:real_binary_aborts{{{}}}", name);
+                let mut scn = crate::scenario::Scenario::new(&file);
+                scn.interpreted = interp;
+                let mut c = Case::new("C15", "realproc", seed, 0, scn);
+                c.config = name.clone();
+                c.expect = Some(Expect { class: class.clone(), message: what.clone(), ..Default::default() });
+                Stats::bump(&mut stats.violations, &class, 1);
+                viols.push(VMsg { run: 0, class, message: what, minimised: false, case: c });
+            }
+        }
+    }
+    if let Some(f) = fid.as_mut() {
+        f.proc_cases = proc_cases_run;
+    }
 
     // C15, thorough tier: memory proportional to the input (fresh processes, peak resident set)
     let mem_table = if prop == "C15" && tier == "thorough" {
@@ -1076,7 +1131,9 @@ fn build_evidence(
             "real_binary_fidelity": match fid {
                 Some(f) => serde_json::json!({
                     "what": "the first cases of this check executed a second time by the binary built from /repo with the guard off (real file, real pipes, real main); stdout and exit status must equal the simulated ones byte for byte",
-                    "sessions": f.sessions, "identical": f.compared, "not_comparable_out_of_fuel": f.not_comparable, "mismatches": f.mismatches.len()
+                    "sessions": f.sessions, "identical": f.compared, "not_comparable_out_of_fuel": f.not_comparable, "mismatches": f.mismatches.len(),
+                    "real_binary_aborted_where_the_simulation_ends_properly": f.real_aborts.len(),
+                    "process_level_cases": if f.proc_cases > 0 { serde_json::json!({ "cases": f.proc_cases, "what": "C15 only: command lines without a file, with a missing file, a directory, empty / newline-less / non-UTF-8 / NUL / CRLF / BOM files, closed stdin under -i and in a service, macro chains of 10..400 levels, 3000 brackets / parameters, a call chain of 2000 - each must end by itself with a result or a diagnostic, never with a panic or a signal (bin.rs runs for real only here)" }) } else { serde_json::json!(null) }
                 }),
                 None => serde_json::json!({ "sessions": 0, "note": "SIMCTL_REAL_BIN not set: real binary not available to this run" }),
             },
@@ -1132,6 +1189,39 @@ pub fn replay_main(args: &[String]) -> i32 {
             }
             println!("no violation reproduced");
             return 0;
+        }
+        if case.expect.as_ref().map(|e| e.class.contains("real_binary_aborts")).unwrap_or(false) {
+            let bin = match crate::fidelity::real_bin() {
+                Some(b) => b,
+                None => {
+                    println!("HARNESS-ERROR: SIMCTL_REAL_BIN is not set (use ./check <ID> --replay <file>)");
+                    return 2;
+                }
+            };
+            let dir = format!("{}/sim/target/fidelity-replay", verif_home());
+            let what = if case.kind == "realproc" {
+                match crate::fidelity::proc_cases().into_iter().find(|c| c.name == case.config) {
+                    Some(c) => crate::fidelity::judge_proc_case(&c, &bin, &dir, "rp"),
+                    None => {
+                        println!("HARNESS-ERROR: no process-level case is called {:?}", case.config);
+                        return 2;
+                    }
+                }
+            } else {
+                crate::fidelity::real_run(&case.scn, &bin, &dir, "ra", Duration::from_secs(120))
+                    .and_then(|r| crate::fidelity::aborted(&r).map(|how| format!("the real binary {}: {}", how, crate::fidelity::first_lines(&r.stderr, 3))))
+            };
+            return match what {
+                Some(w) => {
+                    println!("{}", w);
+                    println!("VIOLATION property={} replay={}", case.property, path);
+                    1
+                }
+                None => {
+                    println!("no violation reproduced");
+                    0
+                }
+            };
         }
         if case.expect.as_ref().map(|e| e.class.ends_with("real_binary_not_reproducible")).unwrap_or(false) {
             // executed by the real binary several times: same file, same input
